@@ -485,5 +485,17 @@ func init() {
 			emit(hx(s))
 		}
 	}
+	families["prog-params"] = func(r *rng, n int, emit emitFn) {
+		g := &pgen{r: r, noLayout: true}
+		for i := 0; i < n; i++ {
+			fields := []string{hx(g.program(1 + r.intn(3)))}
+			for _, k := range []string{"p1", "p2", "a", "true", "x", "Kind"} {
+				if r.chance(1, 2) {
+					fields = append(fields, hx(k), hx(pick(r, []string{"{p:String}", "$1", "?", "42", "'lit'", "-5", "1 + 2", "(1 + 2)", "\"col\"", "NULL"})))
+				}
+			}
+			emit(fields...)
+		}
+	}
 	_ = fmt.Sprintf
 }
